@@ -156,7 +156,7 @@ prop('C10',
      scenarios=lambda tier: [sc('bastion', n=30 if tier == 'quick' else 300)] * (4 if tier == 'quick' else 10) + [sc('bastione2e'), sc('binary')],
      diverge={'H': {'status', 'ctype', 'rbody', 'post', 'oracle'}},
      nontrivial_line=lambda k, line: k == 'H',
-     rule='requests through the real addHandler (built as FeedBastion builds it, real witness + real witnessAdapter behind it, in-memory and SQLite) in states reached by earlier requests through the same endpoint: honest growth/refresh (200), stale (409 + size), old size above checkpoint (400), same size other root (409), bad proof (422), bad signature (403), unknown origin (404), ten malformed variants (400), arbitrary mutations, limiter 0/s and 3/s (429); the same request classes end to end: a stub bastion accepts the reverse TLS 1.3 / ALPN bastion/0 connection dialled by the exported FeedBastion and sends the requests over HTTP/2 (with and without declared length), plus honest requests sized just below, at and above the 16 KiB body cap; status, content type, body and witness state compared with the model; independent ed25519 verification of the returned cosignature lines',
+     rule='requests through the real addHandler (built as FeedBastion builds it, real witness + real witnessAdapter behind it, in-memory and SQLite) in states reached by earlier requests through the same endpoint (one session in four also drives a log that stays at size 0 through the placeholder branch: first, another text for the same tree head, another root, a proof between empty trees, old size too large, identical, growth): honest growth/refresh (200), stale (409 + size), old size above checkpoint (400), same size other root (409), bad proof (422), bad signature (403), unknown origin (404), ten malformed variants (400), arbitrary mutations, limiter 0/s and 3/s (429); the same request classes end to end: a stub bastion accepts the reverse TLS 1.3 / ALPN bastion/0 connection dialled by the exported FeedBastion and sends the requests over HTTP/2 (with and without declared length), plus honest requests sized just below, at and above the 16 KiB body cap; status, content type, body and witness state compared with the model; independent ed25519 verification of the returned cosignature lines',
      assumptions=['TLS 1.3/HTTP-2 reverse connection and token-bucket timing are not modelled (in-process handler); the limiter is a Bool input of the model'])
 
 prop('C11',
@@ -222,7 +222,7 @@ prop('C15',
      scenarios=lambda tier: [sc('dist')],
      diverge={'DS': None},
      nontrivial_line=lambda k, line: k == 'DS',
-     rule='rest.Distributor.DistributeOnce against a stub witness whose answer per log is one of {valid, missing, wrong log key, no witness signature, invalid witness signature, corrupted, another log\'s checkpoint, two witness signatures} and a stub distributor service answering {200, 404, 500, connection reset, 307 redirect, 302 redirect, 201}: the 56 combinations enumerated for the first cases, then random draws over 1..6 logs and witness key names with characters that need escaping; requests received (path, method, body digest, redirect target) and the returned error compared with the model',
+     rule='rest.Distributor.DistributeOnce against a stub witness whose answer per log is one of {valid, missing, wrong log key, no witness signature, invalid witness signature, corrupted, another log\'s checkpoint, two witness signatures} and a stub distributor service (it records EVERY request that reaches a path, in order) answering {200, 404, 500, connection reset, 307 redirect, 302 redirect, 201, 503 then 200, 502 then 200, stall}: the 56 combinations enumerated for the first cases, then random draws over 1..6 logs and witness key names with characters that need escaping; requests received (path, method, body digest, redirect target) and the returned error compared with the model',
      assumptions=['net/http client behaviour on redirects is observed, not modelled beyond method preservation'])
 
 prop('C17',
@@ -247,7 +247,7 @@ prop('C16',
      scenarios=lambda tier: [sc('httpapi')] * (2 if tier == 'quick' else 8),
      diverge={'A': None, 'U': {'accept', 'post'}},
      nontrivial_line=lambda k, line: k == 'A',
-     rule='histories of accepted and refused updates over 1..4 logs (IDs from log.ID) on in-memory, SQLite :memory: and SQLite file stores; after steps, GET checkpoint through the registered gorilla/mux handlers (httptest server) and through the bundled client for every known ID and for unknown / odd IDs (upper case, truncated, extended, -, _, ., %2F, empty, .., 200 characters, %00, non-ASCII, spaces), GET logs decoded and sorted; a quarter of the probes run while the store fails Logs / ReadOps / GetLatest, or (SQLite through the wrapping database/sql driver) while Query or the first, second or third Rows.Next fails (an error status is the only truthful answer: never 404, never \'does not exist\', never a 200 list that is not the stored set); compared with the model and the monitors 200 => that log holds exactly these bytes, else 404, client maps 404 to ErrNotExist')
+     rule='histories of accepted and refused updates over 1..4 logs (IDs from log.ID) on in-memory, SQLite :memory: and SQLite file stores; after steps, GET checkpoint through the registered gorilla/mux handlers (httptest server) and through the bundled client for every known ID and for unknown / odd IDs (upper case, truncated, extended, -, _, ., %2F, empty, .., 200 characters, %00, non-ASCII, spaces), GET logs decoded and sorted; whenever the service hands out an ETag or Last-Modified a later probe revalidates with it (304 only while the stored bytes are unchanged); a quarter of the probes run while the store fails Logs / ReadOps / GetLatest, or (SQLite through the wrapping database/sql driver) while Query or the first, second or third Rows.Next fails (an error status is the only truthful answer: never 404, never \'does not exist\', never a 200 list that is not the stored set); compared with the model and the monitors 200 => that log holds exactly these bytes, else 404, client maps 404 to ErrNotExist')
 
 prop('C18',
      modules=['WitnessVerif.Props.C18'],
@@ -271,5 +271,5 @@ prop('C14',
      scenarios=lambda tier: [sc('omni'), sc('tiles'), sc('feeder'), sc('binary')],
      diverge={'TF': None, 'TP': None, 'FD': {'closedloop'}},
      nontrivial_line=lambda k, line: k in ('OM', 'OMF', 'TL', 'BINP', 'BIND'),
-     rule='omniwitness.Main in-process with ConfigLogs set to a generated configuration of seven logs sharing one key, one or two for every feeder type of the shipped configuration (sumdb, two tlog-tiles, pixel with height-1 tiles below a path, rekor as the active shard and as an inactive shard, serverless below a path) and one push-only log, served by independent in-memory stub log servers that accept only canonical paths (custom http.Transport), FeedInterval 40 ms, HTTP API on a local listener; growth schedules crossing 255/256/257 and 512/513 (thorough: 65535/65536/65537), in-memory storage (same object across restarts) and file-backed SQLite (reopened), the service restarted after every step; after each growth GET /witness/v0/logs/<id>/checkpoint must serve the published size and root, cosigned, within 200 poll intervals; then a fork of one log (diverging below the witnessed size), with and without restart: the served checkpoint must stay; plus the long-running SumDB feeders of the tiles scenario (small log and 65,800-leaf log, no restart), and the feeder scenario: every failure-free feed cycle against the real witness behind the real adapter is compared (calls, outcome, witness state afterwards) with the closed-loop model Omni.feedCycle that the byte-level theorem is about',
+     rule='omniwitness.Main in-process with ConfigLogs set to a generated configuration of seven logs sharing one key, one or two for every feeder type of the shipped configuration (sumdb, two tlog-tiles, pixel with height-1 tiles below a path, rekor as the active shard and as an inactive shard, serverless below a path) and one push-only log, served by independent in-memory stub log servers that accept only canonical paths (custom http.Transport), FeedInterval 40 ms, HTTP API on a local listener; growth schedules crossing 255/256/257 and 512/513 (thorough: 65535/65536/65537), in-memory storage (same object across restarts) and file-backed SQLite (reopened), the service restarted after every step; after each growth GET /witness/v0/logs/<id>/checkpoint must serve the published size and root, cosigned, within 200 poll intervals; then a roll-back (every log in turn presents half its size for 8 polls: the service neither stops nor moves, and follows again afterwards), then a fork of one log (diverging below the witnessed size), with and without restart: the served checkpoint must stay; plus the long-running SumDB feeders of the tiles scenario (small log and 65,800-leaf log, no restart), and the feeder scenario: every failure-free feed cycle against the real witness behind the real adapter is compared (calls, outcome, witness state afterwards) with the closed-loop model Omni.feedCycle that the byte-level theorem is about',
      assumptions=['liveness bound (poll intervals) and goroutine wiring are runtime observations'])
